@@ -92,6 +92,7 @@ fn hstep(h: u128, x: u64) -> u128 {
 }
 const LONG: usize = 12;
 const SEG: usize = 120;
+static LIGHT: std::sync::atomic::AtomicBool = std::sync::atomic::AtomicBool::new(false);
 /// a sorted id list: in full when short, as (length, hash) when long
 fn zs(v: &[u64]) -> String {
     if v.len() <= LONG {
@@ -286,6 +287,8 @@ struct Sut {
     phantom: BTreeSet<u64>,
     /// probe values that every observation of this trace uses in addition to the random ones
     forced: Vec<(i64, Value)>,
+    /// range lookups that every observation of this trace performs in addition to the random ones
+    forced_ranges: Vec<(i64, Option<Value>, Option<Value>, bool, bool)>,
 }
 
 impl Sut {
@@ -310,6 +313,7 @@ impl Sut {
             evalues_seen: vec![vec![]; N_KEYS as usize],
             phantom: BTreeSet::new(),
             forced: vec![],
+            forced_ranges: vec![],
         }
     }
     fn backward(&self) -> bool {
@@ -556,6 +560,11 @@ struct Failure {
     kcoq: Option<String>, // class predicate, `{OPS}` stands for the op list of the prefix
 }
 
+/// name of the class predicate of a failure (failures are kept once per finding and predicate)
+fn kname(k: &Option<String>) -> String {
+    k.as_ref().map(|s| s.split(' ').next().unwrap_or("").to_string()).unwrap_or_default()
+}
+
 fn dir_coq(d: Direction) -> &'static str {
     match d {
         Direction::Outgoing => "Outgoing",
@@ -599,12 +608,12 @@ struct Obs {
 }
 
 #[allow(clippy::too_many_lines)]
-fn observe(sut: &Sut, r: &mut Rng, heavy: bool, after_refresh: bool) -> Obs {
+fn observe(sut: &Sut, r: &mut Rng, heavy: bool, after_refresh: bool, light: bool) -> Obs {
     let st = &sut.store;
     let mut items: Vec<String> = Vec::new();
     let mut fails: Vec<Failure> = Vec::new();
     let mut fail = |class: &'static str, what: String, kcoq: Option<String>| {
-        if !fails.iter().any(|f: &Failure| f.class == class && f.kcoq.is_some() == kcoq.is_some()) {
+        if !fails.iter().any(|f: &Failure| f.class == class && kname(&f.kcoq) == kname(&kcoq)) {
             fails.push(Failure { class, what, kcoq });
         }
     };
@@ -688,13 +697,15 @@ fn observe(sut: &Sut, r: &mut Rng, heavy: bool, after_refresh: bool) -> Obs {
     } else {
         // node 0/1 (the hubs of the hub traces) and a random handful
         sample.extend(0..2);
-        for _ in 0..(if heavy { 5 } else { 6 }) {
+        for _ in 0..(if light { 2 } else if heavy { 5 } else { 6 }) {
             sample.push(r.below(total));
         }
     }
     sample.push(total); // never created
-    sample.push(total + 7);
-    sample.extend(sut.phantom.iter().copied().take(3));
+    if !light {
+        sample.push(total + 7);
+    }
+    sample.extend(sut.phantom.iter().copied().take(if light { 1 } else { 3 }));
     sample.sort();
     sample.dedup();
     for &n in &sample {
@@ -797,7 +808,7 @@ fn observe(sut: &Sut, r: &mut Rng, heavy: bool, after_refresh: bool) -> Obs {
     if n_edges <= 30 {
         esample.extend(0..n_edges);
     } else {
-        for _ in 0..12 {
+        for _ in 0..(if light { 4 } else { 12 }) {
             esample.push(r.below(n_edges));
         }
     }
@@ -847,7 +858,7 @@ fn observe(sut: &Sut, r: &mut Rng, heavy: bool, after_refresh: bool) -> Obs {
         }
         // everything stored in the column, reachable through the public accessor (incl. ids that are not live)
         let stored: Vec<(u64, Value)> = (0..sut.n_nodes + 2).filter_map(|n| st.get_node_property(NodeId::new(n), &pk).map(|v| (n, v))).collect();
-        let nprobe = if heavy { 3 } else { 5 };
+        let nprobe = if light { 1 } else if heavy { 3 } else { 5 };
         let mut probes = probe_values(r, &sut.values_seen[k as usize], nprobe);
         probes.extend(sut.forced.iter().filter(|(fk, _)| *fk == k).map(|(_, v)| v.clone()));
         for q in probes {
@@ -896,12 +907,15 @@ fn observe(sut: &Sut, r: &mut Rng, heavy: bool, after_refresh: bool) -> Obs {
             items.push(format!("O(OMight true {} {} [{}])", k, cv(&q), bs.join(";")));
         }
         // find_nodes_in_range
-        for _ in 0..(if heavy { 1 } else { 2 }) {
+        let mut ranges: Vec<(Option<Value>, Option<Value>, bool, bool)> = Vec::new();
+        for _ in 0..(if heavy || light { 1 } else { 2 }) {
             let pv = probe_values(r, &sut.values_seen[k as usize], 2);
             let lo = if r.chance(2, 3) { Some(pv[0].clone()) } else { None };
             let hi = if r.chance(2, 3) { Some(pv[1].clone()) } else { None };
-            let li = r.chance(1, 2);
-            let hi_i = r.chance(1, 2);
+            ranges.push((lo, hi, r.chance(1, 2), r.chance(1, 2)));
+        }
+        ranges.extend(sut.forced_ranges.iter().filter(|f| f.0 == k).map(|f| (f.1.clone(), f.2.clone(), f.3, f.4)));
+        for (lo, hi, li, hi_i) in ranges {
             let mut got: Vec<u64> = st.find_nodes_in_range(&key(k), lo.as_ref(), hi.as_ref(), li, hi_i).iter().map(|n| n.as_u64()).collect();
             got.sort();
             items.push(format!("O(OFindRange {} {} {} {} {} {})", k, cov(&lo), cov(&hi), cb(li), cb(hi_i), zs(&got)));
@@ -914,12 +928,13 @@ fn observe(sut: &Sut, r: &mut Rng, heavy: bool, after_refresh: bool) -> Obs {
                 fail(
                     "C14-K4",
                     format!("find_nodes_in_range(k{}, {:?}, {:?}, {}, {}) = {:?} but the scan finds {:?}", k, lo, hi, li, hi_i, got, scan),
-                    None,
+                    Some(format!("k_range BW {{OPS}} {} {} {} {} {}", k, cov(&lo), cov(&hi), cb(li), cb(hi_i))),
                 );
             }
         }
         // edge columns: zone maps only
-        for q in probe_values(r, &sut.evalues_seen[k as usize], 1) {
+        let n_eprobe = if light && r.chance(1, 2) { 0 } else { 1 };
+        for q in probe_values(r, &sut.evalues_seen[k as usize], n_eprobe) {
             let stored_e: Vec<(u64, Value)> = (0..n_edges + 1).filter_map(|e| st.get_edge_property(EdgeId::new(e), &pk).map(|v| (e, v))).collect();
             let mut bs: Vec<&str> = Vec::new();
             for (op, opn) in OPS6 {
@@ -1256,13 +1271,29 @@ fn gen_hub_ops(r: &mut Rng, len: usize) -> Vec<Op> {
 // one trace
 
 fn run_trace(out: &mut Out, r: &mut Rng, mode: Mode, ops: &[Op], obs_every: usize, tag: &str, heavy: bool) {
-    run_trace_p(out, r, mode, ops, obs_every, tag, heavy, &[])
+    run_trace_pr(out, r, mode, ops, obs_every, tag, heavy, &[], &[])
 }
 
 #[allow(clippy::too_many_arguments)]
 fn run_trace_p(out: &mut Out, r: &mut Rng, mode: Mode, ops: &[Op], obs_every: usize, tag: &str, heavy: bool, forced: &[(i64, Value)]) {
+    run_trace_pr(out, r, mode, ops, obs_every, tag, heavy, forced, &[])
+}
+
+#[allow(clippy::too_many_arguments)]
+fn run_trace_pr(
+    out: &mut Out,
+    r: &mut Rng,
+    mode: Mode,
+    ops: &[Op],
+    obs_every: usize,
+    tag: &str,
+    heavy: bool,
+    forced: &[(i64, Value)],
+    forced_ranges: &[(i64, Option<Value>, Option<Value>, bool, bool)],
+) {
     let mut sut = Sut::new(mode);
     sut.forced = forced.to_vec();
+    sut.forced_ranges = forced_ranges.to_vec();
     let mut items: Vec<String> = Vec::new();
     let mut opcoq: Vec<String> = Vec::new();
     let mut fails: Vec<(usize, Failure)> = Vec::new();
@@ -1273,10 +1304,13 @@ fn run_trace_p(out: &mut Out, r: &mut Rng, mode: Mode, ops: &[Op], obs_every: us
         opcoq.push(op.coq());
         let refreshed = matches!(op, Op::RefreshStats);
         if refreshed || (i + 1) % obs_every == 0 || i + 1 == ops.len() {
-            let o = observe(&sut, r, heavy, refreshed);
+            // in the quick tier the observations in the middle of a long trace are light (fewer sampled
+            // nodes, edges and probe values); the one at the end and those after a refresh are full
+            let light = LIGHT.load(std::sync::atomic::Ordering::Relaxed) && heavy && !refreshed && i + 1 != ops.len();
+            let o = observe(&sut, r, heavy, refreshed, light);
             items.extend(o.items);
             for f in o.fails {
-                if !fails.iter().any(|(_, g)| g.class == f.class && g.kcoq.is_some() == f.kcoq.is_some()) {
+                if !fails.iter().any(|(_, g)| g.class == f.class && kname(&g.kcoq) == kname(&f.kcoq)) {
                     fails.push((i + 1, f));
                 }
             }
@@ -1433,7 +1467,7 @@ fn corpus(out: &mut Out, r: &mut Rng) {
     run_trace_p(out, r, Mode::StoreBackward, &[CreateNode(vec![]), SetNodeProp(0, 1, f(f64::NAN)), CreateIndex(1)], 1, "corpus:K3", false, &fl);
     run_trace_p(out, r, Mode::StoreBackward, &[CreateNode(vec![]), SetNodeProp(0, 1, f(0.0)), CreateIndex(1), CreateNode(vec![]), SetNodeProp(1, 1, f(-0.0))], 1, "corpus:K3", false, &fl);
     // C14-K4: Float 2^53 becomes the minimum, Int 2^53 compares Equal to it, query < Int 2^53+1
-    run_trace_p(
+    run_trace_pr(
         out,
         r,
         Mode::StoreBackward,
@@ -1442,6 +1476,7 @@ fn corpus(out: &mut Out, r: &mut Rng) {
         "corpus:K4",
         false,
         &[(1, i((1 << 53) + 1)), (1, i(1 << 53))],
+        &[(1, None, Some(i((1 << 53) + 1)), false, false), (1, None, Some(i((1 << 53) + 1)), false, true), (1, Some(i(1 << 53)), None, true, false)],
     );
     run_trace_p(
         out,
@@ -1523,6 +1558,7 @@ fn main() {
     });
     corpus(&mut out, &mut r);
     let thorough = a.tier == "thorough";
+    LIGHT.store(!thorough, std::sync::atomic::Ordering::Relaxed);
     for c in 0..a.cases {
         let mode = match r.below(20) {
             0..=8 => Mode::StoreBackward,
